@@ -13,7 +13,8 @@ import warnings
 
 warnings.filterwarnings("ignore")
 
-CASE_SECONDS = float(os.environ.get("VERIF_CASE_SECONDS", "10"))
+CASE_SECONDS = float(os.environ.get("VERIF_CASE_SECONDS", "30"))
+MAX_TIMEOUTS = 4     # after that many, the remaining cases of this worker are reported as timeouts without being run
 MEM_BYTES = int(os.environ.get("VERIF_WORKER_MEM", str(6 << 30)))
 
 
@@ -45,7 +46,12 @@ def main():
     cases = json.load(open(fin))
     signal.signal(signal.SIGALRM, _on_alarm)
     out = []
+    timeouts = 0
     for c in cases:
+        if timeouts >= MAX_TIMEOUTS:
+            out.append({"__exc__": "Timeout: not run, the implementation had already exceeded the time limit "
+                                   f"{MAX_TIMEOUTS} times in this worker"})
+            continue
         try:
             signal.setitimer(signal.ITIMER_REAL, CASE_SECONDS)
             try:
@@ -54,6 +60,7 @@ def main():
                 signal.setitimer(signal.ITIMER_REAL, 0)
             out.append(r)
         except CaseTimeout:
+            timeouts += 1
             out.append({"__exc__": f"Timeout: the implementation did not return within {CASE_SECONDS:g} s"})
         except MemoryError:
             out.append({"__exc__": "MemoryError: the implementation exceeded the worker's memory limit"})
